@@ -42,10 +42,15 @@ func (s *unlimitedSchedule) Next() (tx time.Time, ok bool) {
 		s.MarkStarted()
 	})
 	now := time.Now()
-	if now.Before(s.finish.Load()) {
+	finish := s.finish.Load()
+	if now.Before(finish) {
+		if start := finish.Add(-s.duration); now.Before(start) {
+			// Schedule start is in the future, e.g. previous schedule of composite was drained ahead of time.
+			return start, true
+		}
 		return now, true
 	}
-	return s.finish.Load(), false
+	return finish, false
 }
 
 func (s *unlimitedSchedule) Left() int {
